@@ -374,8 +374,20 @@ package index
 // addDocument read the shard through unverified accessors: may_panic). Every
 // branch name is looked up under a key that is the non-zero single bit of the
 // mask position being decoded - for all 64 bits of the mask.
+// symbolData.data builds a new Symbol (or returns nil); it writes nothing else
+// (assumed frame: it reads the shard through unverified accessors).
+//@ func index.(*symbolData).data
+//@   trusted
+//@   flag only_for=index.addDocument
+//@   assigns nothing
+
 //@ func index.addDocument
 //@   may_panic
+// ... and the symbol metadata handed to the builder is either absent or has an
+// entry for every symbol range (the shard may hold ranges without metadata).
+//@   loop 1:
+//@     invariant doc.SymbolsMetaData == nil || (forall k int :: 0 <= k && k <= $i ==> doc.SymbolsMetaData[k] != nil)
+//@   assert at call:Add: doc.SymbolsMetaData == nil || (forall k int :: 0 <= k && k < len(doc.SymbolsMetaData) ==> doc.SymbolsMetaData[k] != nil)
 //@   loop 2:
 //@     invariant pow2pair(id, mask) || mask == 0
 //@   assert at call:append: id != 0 && pow2pair(id, mask)
